@@ -10,7 +10,8 @@
             creation order (rest/doc_api.go handlePutDoc/handlePostDoc, rest/bulk_api.go handleBulkDocs,
             db/crud.go Put / PutExistingRevWithBody / import, db/blip_handler.go handleRev)
      cur    index of the winning revision (0 = no document)
-     obs    the last externally visible outcome: a read result or the outcome of a reserved-property write
+     obs    the last externally visible outcome: the results of reading every cell, or the outcome of a
+            reserved-property write
    Ghost variables
      written  written[i] = token the client sent for revision i  (ground truth)
      by       by[i] = write path that created revision i
@@ -126,20 +127,19 @@ WriteLenient(wp, cls) == ResvEnabled(wp, cls) /\ cls \in Lenient(wp) /\ UNCHANGE
                          /\ obs' = [k |-> "lenient", wp |-> wp, cls |-> cls, mode |-> ResvMode, status |-> 201]
                          /\ Step("WriteReserved", wp, FALSE, cls, NextTok)
 
-(* ---- Read: a read path addresses revision i; the model returns the token written for it ---- *)
-ImplRead(i, rp, c) ==
-  /\ UNCHANGED <<tree, cur>>
-  /\ obs' = [k |-> "read", rev |-> i, rp |-> rp, cache |-> c, status |-> 200, valid |-> TRUE, got |-> written[i],
-             extra |-> {"_id", "_rev"}]
-ReadEnabled(i, rp, c) == i \in Revs /\ rp \in RP /\ Applicable(rp, Kind(i)) /\ c \in CachesFor(rp)
-Read(i, rp, c) == ReadEnabled(i, rp, c) /\ (Closed => obs.k \in {"resv", "read"}) /\ ImplRead(i, rp, c)
-                  /\ UNCHANGED <<written, by, hist>>
+(* ---- ReadAll: every read cell of the document (revision x applicable read path x cache) is exercised; the model
+        returns, for each, the token written for the addressed revision ---- *)
+CellsNow == {c \in Revs \X RP \X Caches : Applicable(c[2], Kind(c[1])) /\ c[3] \in CachesFor(c[2])}
+ModelRead(c) == [rev |-> c[1], rp |-> c[2], cache |-> c[3], status |-> 200, valid |-> TRUE, got |-> written[c[1]],
+                 extra |-> {"_id", "_rev"}]
+ImplReadAll == UNCHANGED <<tree, cur>> /\ obs' = [k |-> "reads", items |-> {ModelRead(c) : c \in CellsNow}]
+ReadAll == N > 0 /\ obs.k \in {"none", "resv"} /\ ImplReadAll /\ UNCHANGED <<written, by, hist>>
 
 Next ==
   \/ /\ Len(hist) < MaxSteps /\ ~Closed
      /\ \E wp \in WP : \/ Create(wp) \/ Supersede(wp) \/ \E w \in BOOLEAN : Branch(wp, w)
                        \/ \E cls \in ResvClasses(wp) : WriteReserved(wp, cls) \/ WriteLenient(wp, cls)
-  \/ \E i \in Revs, rp \in RP, c \in Caches : Read(i, rp, c)
+  \/ ReadAll
 Spec == Init /\ [][Next]_vars
 
 -----------------------------------------------------------------------------
@@ -147,14 +147,14 @@ Spec == Init /\ [][Next]_vars
 
 (* every read path returns, for the revision it addresses, the token that was written for it, as valid JSON, adding
    only documented reserved properties; only superseded revisions may be reported missing *)
-Fidelity ==
-  obs.k = "read" =>
-    /\ obs.rev \in Revs
-    /\ \/ obs.status = 200
-       \/ obs.status = 404 /\ ~MustBeAvailable(Kind(obs.rev))
-    /\ obs.status = 200 => /\ obs.valid
-                           /\ obs.got = written[obs.rev]
-                           /\ obs.extra \subseteq AddedFor(obs.rp)
+FidOK(x) ==
+  /\ x.rev \in Revs
+  /\ \/ x.status = 200
+     \/ x.status = 404 /\ ~MustBeAvailable(Kind(x.rev))
+  /\ x.status = 200 => /\ x.valid
+                       /\ x.got = written[x.rev]
+                       /\ x.extra \subseteq AddedFor(x.rp)
+Fidelity == obs.k = "reads" => \A x \in obs.items : FidOK(x)
 
 (* a must-not-set reserved property is refused with a client error and nothing is stored or altered *)
 ReservedRejected ==
@@ -169,7 +169,7 @@ TypeOK ==
   /\ tree \in Seq(0..MaxSteps) /\ cur \in 0..N /\ (N > 0 => cur \in Revs)
   /\ Len(written) = N /\ Len(by) = N
   /\ \A i \in Revs : tree[i] < i /\ by[i] \in WP /\ written[i] \in 1..MaxSteps
-  /\ obs.k \in {"none", "read", "resv", "lenient"}
+  /\ obs.k \in {"none", "reads", "resv", "lenient"}
 WinnerIsLeaf == N > 0 => IsLeaf(cur)
 TokensDistinct == \A i, j \in Revs : written[i] = written[j] => i = j
 (* the declared matrix: every (write path, kind, read path) combination the bounded model must reach *)
